@@ -131,8 +131,15 @@ def netcdf_roundtrip(req):
     with Dataset(tmpl, 'w') as ds:
         for dname, size in zip(dims, shape):
             ds.createDimension(dname, size)
-            dv = ds.createVariable(dname, 'f8', (dname,))
-            dv[:] = numpy.linspace(10, 20, size)
+            if rec.get('coords') == 'packed':
+                # a packed coordinate (CF scale_factor / add_offset on a 16-bit integer variable)
+                dv = ds.createVariable(dname, 'i2', (dname,))
+                dv.scale_factor = 0.5
+                dv.add_offset = 10.0
+                dv[:] = 10 + 0.5 * numpy.arange(size)
+            else:
+                dv = ds.createVariable(dname, 'f8', (dname,))
+                dv[:] = numpy.linspace(10, 20, size)
             dv.units = 'u_' + dname
         tv = ds.createVariable('template', 'f4', tuple(dims))
         tv[:] = numpy.zeros(shape)
@@ -169,7 +176,8 @@ def netcdf_roundtrip(req):
         union |= numpy.ma.getmaskarray(mpvinputs.TABLE[nm])
     with Dataset(out) as ds, Dataset(tmpl) as ts:
         for dname in dims:
-            ok = dname in ds.variables and numpy.array_equal(ds[dname][:], ts[dname][:]) and getattr(ds[dname], 'units', None) == 'u_' + dname
+            ok = dname in ds.variables and numpy.array_equal(ds[dname][:], ts[dname][:]) and getattr(ds[dname], 'units', None) == 'u_' + dname \
+                and ds[dname].dtype == ts[dname].dtype and getattr(ds[dname], 'scale_factor', None) == getattr(ts[dname], 'scale_factor', None)
             facts.append(('dimensions: variable %s and its coordinate values/attributes are copied unchanged' % dname, bool(ok)))
     for nm in names:
         rsrc = 'B = EEMSRead(InFileName = "%s", InFieldName = %s, DataType = "%s")\n' % (out, nm, 'Float' if rec['dkind'] == 'f' else 'Integer')
